@@ -9,7 +9,7 @@ import math
 
 from common import Fr, fq, dec, lean_query
 import impl
-from tracers import eval_noise, ApiTracer, LABELS, dyadic_grid, lammps_tokens, real_potential
+from tracers import potable_real_models, ref_values, eval_noise, ApiTracer, LABELS, dyadic_grid, lammps_tokens, real_potential
 
 from atsim.potentials import Potential, writePotentials
 from atsim.potentials.pair_tabulation import LAMMPS_PairTabulation
@@ -169,6 +169,49 @@ def check(run):
                 run.fail("lammps-table-mismatch", "LAMMPS table differs from the model (= from the property's predicate, theorem C01_determined): %s" % dd,
                          dict(case=small, route=small["route"], first_difference=dd, impl_tokens=tt, model_tokens=mm, original_case=c))
     real_stream(run)
+    potable_real_stream(run)
+
+
+def potable_real_stream(run):
+    """Numerical leg through the configuration-file route: [Pair] entries that are random potential EXPRESSIONS (modifiers, ranges, splines); the energy
+    column must be the expression's documented value and the force column minus its derivative (reference: the same expression composed through the
+    Python API, differentiated numerically)."""
+    nbad = 0
+    for cfg, cut, nr, ents in potable_real_models(run.rng, run.n(40, 500), "LAMMPS", lambda rng: rng.randint(3, 40)):
+        run.case(key=("potable-real", cfg), kind="potable-real", sample=dict(potable_file=cfg) if run.dist.get("potable-real", 0) < 1 else None)
+        run.traces += 1
+        try:
+            out = impl.config_tabulate(cfg)
+        except Exception as e:
+            # an expression that cannot be evaluated somewhere on the grid (overflow, negative base) is not this property's business
+            if isinstance(e, (OverflowError, ZeroDivisionError, ValueError)) or "math" in str(e):
+                continue
+            raise
+        blocks = lammps_tokens(out, "raw", None)
+        problem = None
+        if len(blocks) != len(ents):
+            problem = "block count %d != %d" % (len(blocks), len(ents))
+        for (a, b_, f, bounds, txt), blk in zip(ents, blocks):
+            if problem:
+                break
+            for (nrow, r, e, fo) in blk["rows"]:
+                rf = float(Fr(nrow) * Fr(repr(cut)) / (nr - 1))
+                rv = ref_values(f, rf, bounds + [0.0])
+                if rv is None:
+                    continue
+                ev, slope = rv
+                tol_e = 0.51e-8 + 1e-9 * abs(ev) + abs(slope) * 4 * math.ulp(rf) + 2 * eval_noise(f, rf)
+                if abs(float(Fr(e)) - ev) > tol_e:
+                    problem = "%s-%s : %s, row %d r=%r: energy printed %s, the expression's value is %r" % (a, b_, txt, nrow, rf, e, ev)
+                    break
+                tol_f = 0.51e-8 + 1e-5 * max(1.0, abs(slope)) + 1e-9 * abs(ev)
+                if abs(float(Fr(fo)) + slope) > tol_f:
+                    problem = "%s-%s : %s, row %d r=%r: force printed %s, -dE/dr = %r" % (a, b_, txt, nrow, rf, fo, -slope)
+                    break
+        if problem:
+            nbad += 1
+            if nbad <= 2:
+                run.fail("lammps-potable-real-numeric", "potable real-function stream: " + problem, dict(potable_file=cfg, problem=problem))
 
 
 def real_stream(run):
